@@ -1,4 +1,5 @@
 pub mod c16;
+pub mod c17;
 
 #[derive(Clone, Debug)]
 pub struct RunCfg {
